@@ -95,7 +95,7 @@ def random_scenarios(rng, n, hooks_fn=None, fault_p=0.06, syscall_p=0.0, allow=(
 
 
 def mc_phase(wd, tier, hookmode=False):
-    consts = {"N": "2" if tier == "quick" else "3"}
+    consts = {"N": "2" if tier == "quick" else "4"}
     if hookmode:
         consts = {"N": "2", "HookMode": '"menu"', "MaxHooks": "3" if tier == "quick" else "4"}
     res = vlib.tlc_mc("MC_Exec", "MC_Exec.cfg", wd, workers=8, constants=consts, timeout=3000, tag="mc" + ("h" if hookmode else ""))
